@@ -12,6 +12,8 @@ C08 harness: exhaustive TL-level decoding of all octet strings of length 0..3.
       result is compared with the oracle below.
       stdout: JSON lines {"class":..,"n":..}, {"mismatch":key,"n":..,"input":hex,...}, {"done":N}
       on death (ASan / abort): {"crash_index":i,"input":hex,"fn":name} on stderr.
+  tl_exhaust one <hex>
+      the same for one literal input of at most 8 octets (replays).
   tl_exhaust oracle
       reads hex strings (one per line) from stdin and prints the oracle's verdict for
       each, so that the Python model ref/der.py can be compared with it.
@@ -519,6 +521,27 @@ int main(int argc, char* argv[])
 		}
 		return 0;
 	}
+	if (argc == 3 && strcmp(argv[1], "one") == 0)
+	{
+		octet buf[2048];
+		size_t n = 0;
+		for (i = 0; hexval(argv[2][i]) >= 0 && hexval(argv[2][i + 1]) >= 0 && n < sizeof buf; i += 2)
+			buf[n++] = (octet)(hexval(argv[2][i]) * 16 + hexval(argv[2][i + 1]));
+		if (__sanitizer_set_death_callback)
+			__sanitizer_set_death_callback(on_death);
+		else
+			signal(SIGABRT, on_signal), signal(SIGSEGV, on_signal), signal(SIGBUS, on_signal);
+		p_tag = (u32*)malloc(sizeof(u32));
+		p_len = (size_t*)malloc(sizeof(size_t));
+		p_val = (const octet**)malloc(sizeof(octet*));
+		p_anchor = (der_anchor_t*)malloc(sizeof(der_anchor_t));
+		if (n > sizeof cur_in)
+			n = sizeof cur_in;
+		one(buf, n);
+		cur_idx = 1;
+		dump(0);
+		return 0;
+	}
 	if (argc == 6 && strcmp(argv[1], "run") == 0)
 	{
 		unsigned lo = (unsigned)atoi(argv[2]), hi = (unsigned)atoi(argv[3]);
@@ -556,6 +579,6 @@ int main(int argc, char* argv[])
 		dump(0);
 		return 0;
 	}
-	fprintf(stderr, "usage: tl_exhaust run <lo> <hi> <skip> <with_empty> | tl_exhaust oracle\n");
+	fprintf(stderr, "usage: tl_exhaust run <lo> <hi> <skip> <with_empty> | tl_exhaust one <hex> | tl_exhaust oracle\n");
 	return 2;
 }
